@@ -6,7 +6,8 @@
    observed.ndjson, one JSON object per line, many scenarios per file:
      {"ev":"reset","id":..,"sig":..,"via":..,"n":N,"mut":[..],"fail":[..],"roIn":b,"adv":b,
       "sent":[digest per consumer],"pre":[[markers] per consumer],"v":VIEWS}
-     {"ev":"proc","decl":b,"o":object id,"v":VIEWS}   graph level only: a processor acted on object o (decl = it declared MutatesData)
+     {"ev":"proc","decl":b,"o":object id,"p":panicked,"v":VIEWS}   graph level only: a processor / connector
+                                                     acted on object o (decl = it declared MutatesData and wrote its marker)
      {"ev":"deliver","c":C,"v":VIEWS}                consumer C was invoked
      {"ev":"mutate","c":C,"k":K,"p":panicked,"v":VIEWS}   C wrote (or tried to write) marker 10*C+K
      {"ev":"return","isnil":b,"has":[C..],"v":VIEWS}  the fan-out returned; has = consumers whose error it contains
@@ -60,7 +61,7 @@ TDeliver == /\ Is("deliver")
 TProc == /\ Is("proc")
          /\ view' = Vw(E)
          /\ origProc' = (origProc \/ (E.decl /\ E.o = view[0].obj))
-         /\ last' = StepRec("proc", 0, 0, FALSE, view, held)
+         /\ last' = StepRec("proc", 0, 0, E.p, view, held)
          /\ UNCHANGED <<held, dlv, ret, phase>> /\ Same
 
 TMutate == /\ Is("mutate")
